@@ -361,7 +361,7 @@ func C08() *check.Property {
 		Title:    "Backpressure: Next returns after downstream is done; queues are bounded FIFO",
 		Patterns: cat(CorePatterns, PluginPkgs, IOPluginPkgs, []string{PromPkg}, RatePkgs),
 		Scope:    append([]string{ro}, IOPluginPkgs...),
-		Rules:    []check.Rule{ruleSyncEmission(), ruleBoundedQueue(), ruleLockRegion(), ruleCoreDelivers(), ruleNoDowngrade(), ruleIncorporateBeforeDecide(), ruleNoTryLockSkip()},
+		Rules:    []check.Rule{ruleSyncEmission(), ruleBoundedQueue(), ruleLockRegion(), ruleCoreDelivers(), ruleNoDowngrade(), ruleIncorporateBeforeDecide(), ruleNoTryLockSkip(), withCore(ruleSubjectDelivers()), withCore(ruleSubjectBroadcastLocked())},
 		Explanation: "Static who-may-use check of asynchrony constructs. From the model of every subscribe closure: a value emission whose context has a goroutine or timer-callback ancestor, or an upstream slot that sends into a channel, is allowed only in creation operators " +
 			"(no upstream) and in the documented hand-off/time-shift operators; everywhere else the emission provably runs inside the upstream's callback, i.e. on the producer's goroutine before its Next returns. For detachOn/ToChannel the queue is one channel whose capacity " +
 			"operand is the size parameter, all three slots go through it, terminal notifications are queued before the close, the consumer ranges over it and the notification dispatcher maps kind k to callback k. The blocking (not dropping) producer lock is checked by LOCK-REGION.",
